@@ -1446,6 +1446,13 @@ func (ex *Exec) convert(fr *Frame, x *ssa.Convert) Value {
 		if _, ok := v.(SliceV); ok {
 			unsup("slice<->string conversion at %s", site(x))
 		}
+		if st, ok := v.(*T); ok && st.sort == SStr {
+			if sl, ok := to.(*types.Slice); ok {
+				if eb, ok := sl.Elem().Underlying().(*types.Basic); ok && eb.Kind() == types.Uint8 {
+					return ex.stringBytes(st, x, 0)
+				}
+			}
+		}
 		return v
 	}
 	t, isT := v.(*T)
@@ -1962,4 +1969,25 @@ func (ex *Exec) funcsSorted() []string {
 	}
 	sort.Strings(l)
 	return l
+}
+
+
+// stringBytes: []byte(s) for a string term that is a constant or an ite-tree over constants.
+func (ex *Exec) stringBytes(t *T, x *ssa.Convert, depth int) Value {
+	if isC(t) {
+		cells := make([]Value, len(t.name))
+		for i := range cells {
+			cells[i] = I(int64(t.name[i]))
+		}
+		n := I(int64(len(cells)))
+		if len(cells) == 0 {
+			return SliceV{[]SC{{TT, newObj(ArrayV{cells}, nil)}}, I(0), n, n}
+		}
+		return SliceV{[]SC{{TT, newObj(ArrayV{cells}, nil)}}, I(0), n, n}
+	}
+	if t.op == "ite" && depth < 8 {
+		return merge(t.a[0], ex.stringBytes(t.a[1], x, depth+1), ex.stringBytes(t.a[2], x, depth+1))
+	}
+	unsup("[]byte(string) of a symbolic string at %s", site(x))
+	return nil
 }
